@@ -4,11 +4,11 @@
 EXTENDS Naturals, FiniteSets, Sequences, TLC, Json
 CONSTANTS MaxPairs
 Alphabet == [Doc |-> [author |-> {"alice", "zz"}, version |-> {"v1"}],
-             Sec |-> [name |-> {"a", "b"}, type |-> {"t", "u"}, definition |-> {"def one"}],
-             Prop |-> [name |-> {"a", "zz"}, unit |-> {"mV"}, dtype |-> {"int", "string"}]]
+             Sec |-> [name |-> {"a", "b"}, type |-> {"t", "u"}, definition |-> {"def one", "one"}, reference |-> {"ref1"}],
+             Prop |-> [name |-> {"a", "zz"}, unit |-> {"mV"}, dtype |-> {"int", "string"}, value_origin |-> {"orig.dat"}, definition |-> {"def one"}]]
 Universe == UNION {UNION {{[kind |-> k, attr |-> a, val |-> v] : v \in Alphabet[k][a]} : a \in DOMAIN Alphabet[k]} : k \in DOMAIN Alphabet}
 Attrs == UNION {{[kind |-> k, attr |-> a] : a \in DOMAIN Alphabet[k]} : k \in DOMAIN Alphabet}
-Terms == {"a", "t", "alice", "zz"}
+Terms == {"a", "t", "alice", "zz", "def one", "one"}     \* also a term of several words, and its last word
 Consistent(P) == \A q1, q2 \in P : (q1.kind = q2.kind /\ q1.attr = q2.attr) => q1 = q2
 VARIABLES q
 Init == q = [mode |-> "none"]
